@@ -10,8 +10,11 @@ import (
 )
 
 func init() {
-	props["C17"] = c17
-	floors["C17"] = map[string]int{"C17.R1": 17, "C17.R2": 5, "C17.R3": 2, "C17.R4": 5, "C17.R5": 6}
+	props["C17"] = func(r *Report) {
+		c17(r)
+		r.Guard("C17.R6", "every lock taken is released on every exit: the logger's lock", func() { lockPairRule(r, "har") })
+	}
+	floors["C17"] = map[string]int{"C17.R1": 17, "C17.R2": 5, "C17.R3": 2, "C17.R4": 5, "C17.R5": 6, "C17.R6": 1}
 }
 
 func instrOf(v ssa.Value) ssa.Instruction {
